@@ -1,6 +1,7 @@
 import logging
 from collections import defaultdict
 import networkx as nx
+from .cgsmiles_utils import split_bonding_descriptor
 from pysmiles.smiles_helper import format_atom
 from pysmiles.write_smiles import _get_ring_marker,_write_edge_symbol
 
@@ -48,11 +49,11 @@ def format_bonding(bonding):
     """
     bond_str = ""
     for bonding_descrpt in bonding:
-        bond_order = bonding_descrpt[-1]
-        order_symb = order_to_symbol[int(bond_order)]
+        descrpt, bond_order = split_bonding_descriptor(bonding_descrpt)
+        order_symb = order_to_symbol[bond_order]
         if order_symb != '-':
             bond_str += order_symb
-        bond_str += "["+str(bonding_descrpt[:-1])+"]"
+        bond_str += "["+str(descrpt)+"]"
     return bond_str
 
 def write_graph(molecule, smiles_format=False, default_element='*', name_attr='fragname'):
